@@ -253,9 +253,19 @@ func caseBackToBack(c *run.Case, w *run.Worker) {
 	w.Count("b2b_cases_"+mode, 1)
 	ctx := context.Background()
 	sides := []b2bSide{{"backend-direct", twin, twin}, {"client-server", client, env.be}}
-	compareStores := func(when string) {
+	lastPutFailedEmpty := false // a zstd upload of the empty object failed on the client side
+	compareStores := func(when string) (same bool) {
+		same = true
 		a, b := twin.Store.Keys(), env.be.Store.Keys()
 		if strings.Join(a, "\n") != strings.Join(b, "\n") {
+			same = false
+			if zstdOn && lastPutFailedEmpty && len(b) == len(a)+1 {
+				// casBlobAccess.Put finishes (finish_write) a compressed upload
+				// whose source failed instead of cancelling it; the server then
+				// sees a complete upload of zero bytes, which is the empty object.
+				c.Violation("casBlobAccess.Put(zstd):failed-upload-finished-instead-of-cancelled", "%s: the Put failed on the client, but the backend behind the server now holds the empty object\ndirect: %v\nfronted: %v", when, a, b)
+				return
+			}
 			c.Violation("casBlobAccess<->servers:backend-contents-differ", "%s: the backend used directly holds %d objects, the one behind client+server %d\ndirect: %v\nfronted: %v", when, len(a), len(b), a, b)
 			return
 		}
@@ -263,9 +273,11 @@ func caseBackToBack(c *run.Case, w *run.Worker) {
 			x, _ := twin.Store.Peek(o.d)
 			y, _ := env.be.Store.Peek(o.d)
 			if !bytes.Equal(x, y) {
+				same = false
 				c.Violation("casBlobAccess<->servers:backend-contents-differ", "%s: %s holds different bytes", when, o)
 			}
 		}
+		return
 	}
 	nOps := r.Range(4, 12)
 	for op := 0; op < nOps; op++ {
@@ -415,12 +427,16 @@ func caseBackToBack(c *run.Case, w *run.Worker) {
 				for i := rr.Intn(3); i > 0; i-- {
 					sb.Add(gen.SHA256Digest(instances[rr.Intn(len(instances))], rr.Bytes(8)))
 				}
+				set := sb.Build()
+				if set.Length() == 0 {
+					injected = nil // nothing to ask the backend: the servers answer without it
+					causes = 0
+				}
 				if injected != nil {
 					side.be.mu.Lock()
 					side.be.anyErr = injected
 					side.be.mu.Unlock()
 				}
-				set := sb.Build()
 				opDesc = fmt.Sprintf("FindMissing(%d digests) backendErr=%v", set.Length(), injected)
 				sig = "FindMissing"
 				missing, err := side.ba.FindMissing(ctx, set)
@@ -471,10 +487,14 @@ func caseBackToBack(c *run.Case, w *run.Worker) {
 			c.Violation(site+":result-differs-from-backend", "%s: direct %v, client+server %v", opDesc, res[0].set, res[1].set)
 		}
 		if kind == 0 {
-			compareStores("after " + opDesc)
+			lastPutFailedEmpty = len(o.data) == 0 && res[1].code != codes.OK
+			if !compareStores("after " + opDesc) {
+				return // everything after this would only repeat the difference
+			}
 		}
 	}
 	env.drain()
+	lastPutFailedEmpty = false
 	compareStores("after draining the server")
 	for _, p := range env.be.releaseProblems() {
 		c.Violation("byteStreamServer.Read("+mode+"):backend-buffer-release-count", "%s", p)
